@@ -245,6 +245,9 @@ func refSame(r *refExpr, g *proto.Query_Expression) bool {
 
 // verifC09Check runs the real parser on s and compares with the reference.
 func verifC09Check(s string) {
+	// every loop of parser, lexer and reference is bounded by the (short) input: a loop that
+	// runs longer than this does not terminate
+	verifMaxLoop(4000)
 	pq, err := ParseQuery(s)
 	re, rg, ok := refParse(s)
 	if !ok {
@@ -278,6 +281,12 @@ func HarnessC09Smoke() {
 		`foo = "bar" ; bar, baz, quux`, `foo = "foo""bar"`, `foo = $1`, `foo = $1 & bar = $2`,
 		`!`, `(a = "b"`, `a = `, `a = "b" ; "c"`, `a = "b" ; c, d, ^`, `a = $fart`, `a ^ "b"`, `b = $0`,
 		``, ` `, `a="é"`, "a=\"x\ny\"", `a=$01`, `a = "1" b`,
+		// placeholder numbers around the representable range, and beyond 32 and 64 bits
+		`a = $2147483647`, `a = $2147483648`, `a = $4294967296`, `a = $4294967297`, `a = $18446744073709551617`, `a = $00000000001`,
+		// field lists naming a column more than once
+		`a = "b" ; c, c`, `a = "b" ; c, d, c`,
+		// white space other than blank, tab, CR, LF between tokens
+		"a = \"b\"\v", "a\f= \"b\"", "a = \"b\" \u00a0& c = \"d\"", "a = \"b\"\u2003",
 	}
 	verifC09Check(inputs[verifChoice("input", len(inputs))])
 	verifReach("end")
